@@ -1,6 +1,7 @@
 package main
 
 import (
+	"go/token"
 	"fmt"
 	"go/constant"
 	"go/types"
@@ -67,6 +68,7 @@ type Exec struct {
 	samples        []PathSample
 	deadline       time.Time
 	domPrunes      int
+	preemptBound int
 	jointDecisions int
 	modelHits      int
 	queriesBr      int
@@ -273,9 +275,76 @@ func (ex *Exec) runState(st *State) {
 			panic("fell off block end in " + fr.fn.String())
 		}
 		in := fr.block.Instrs[fr.ip]
+		if ex.preemptBound > 0 && len(st.threads) > 1 && ex.maybePreempt(st, th, fr, in) {
+			continue
+		}
+		th.noPre = nil
 		ex.instrs++
 		ex.step(st, fr, in)
 	}
+}
+
+// isSyncPoint: instructions at which a forced context switch is considered -
+// channel operations, close, and the sync primitives the engine models.  (For
+// programs whose shared accesses are lock-protected, switching only at these
+// points covers every interleaving up to the preemption bound - the CHESS argument.)
+func isSyncPoint(in ssa.Instruction) bool {
+	switch x := in.(type) {
+	case *ssa.Send, *ssa.Select:
+		return true
+	case *ssa.UnOp:
+		return x.Op == token.ARROW
+	case *ssa.Call:
+		if b, ok := x.Call.Value.(*ssa.Builtin); ok {
+			return b.Name() == "close"
+		}
+		if fn := x.Call.StaticCallee(); fn != nil {
+			switch fn.String() {
+			case "(*sync.Mutex).Lock", "(*sync.Mutex).Unlock", "(*sync.RWMutex).Lock", "(*sync.RWMutex).Unlock",
+				"(*sync.RWMutex).RLock", "(*sync.RWMutex).RUnlock", "(*sync.WaitGroup).Done", "(*sync.WaitGroup).Wait",
+				"(*sync.Once).Do":
+				return true
+			}
+		}
+	}
+	return false
+}
+
+// maybePreempt: bounded preemption.  Before thread th executes a synchronisation
+// operation, and while fewer than `preempt` forced switches happened on this path,
+// the path forks: th goes on, or any other ready thread runs first (th stays at the
+// operation).  Returns true when the state was forked/switched (the caller re-reads
+// the current thread).
+func (ex *Exec) maybePreempt(st *State, th *Thread, fr *Frame, in ssa.Instruction) bool {
+	if !st.preemptOn || st.preempts >= ex.preemptBound || th.noPre == in || !isSyncPoint(in) {
+		return false
+	}
+	var ready []int
+	for i := range st.threads {
+		if i != st.cur && ex.threadReady(st, i) {
+			ready = append(ready, i)
+		}
+	}
+	if len(ready) == 0 {
+		return false
+	}
+	site := ex.sitePos(fr, in)
+	cur := st.cur
+	alts := []Alt{{cond: tTrue, then: func(ex *Exec, s2 *State, f2 *Frame) {
+		s2.threads[cur].noPre = in
+	}}}
+	for _, j := range ready {
+		j := j
+		alts = append(alts, Alt{cond: tTrue, then: func(ex *Exec, s2 *State, f2 *Frame) {
+			s2.threads[cur].noPre = in
+			s2.preempts++
+			s2.choices = append(s2.choices, fmt.Sprintf("preempt@%s:%s->%s", site, s2.threads[cur].name, s2.threads[j].name))
+			s2.threads[j].blocked = ""
+			s2.cur = j
+		}})
+	}
+	ex.forkAlts(st, fr, nil, alts)
+	return true
 }
 
 func (ex *Exec) where(st *State) string {
